@@ -12,6 +12,9 @@ export CARGO_NET_OFFLINE=true
 test -f seed/patch.diff || { echo "RESULT: no patch"; exit 1; }
 # normalise: clean tree, then apply the delivered patch
 git stash push -q -- rust/src >/dev/null 2>&1; git checkout -q -- rust/src
+# verify against /repo's current HEAD (the scratch tree may have been created from an older commit)
+git checkout -q --detach $(git -C /repo rev-parse HEAD) || { echo "RESULT: cannot checkout HEAD"; exit 1; }
+echo "verifying at $(git rev-parse --short HEAD)"
 git apply --check seed/patch.diff || { echo "RESULT: patch does not apply"; exit 1; }
 mkdir -p rust/tests; cp seed/demo.rs rust/tests/seed_demo.rs
 echo "== clean tree: demo must pass"
